@@ -8,7 +8,9 @@ import (
 	"go/ast"
 	"go/constant"
 	"go/token"
+	"math/big"
 	"regexp/syntax"
+	"sort"
 	"strings"
 
 	"golang.org/x/tools/go/ssa"
@@ -31,6 +33,19 @@ func sprintfVerbs(fn *ssa.Function) ([]fmtVerb, string, *ssa.Call) {
 			if sc == nil || sc.String() != "fmt.Sprintf" {
 				continue
 			}
+			if vs, f := sprintfVerbsOf(call); f != "" {
+				return vs, f, call
+			}
+		}
+	}
+	return nil, "", nil
+}
+
+// sprintfVerbsOf: the verbs of one fmt.Sprintf call with a constant format, with the struct
+// fields printed by them.
+func sprintfVerbsOf(call *ssa.Call) ([]fmtVerb, string) {
+	for once := true; once; once = false {
+		{
 			k, ok := call.Call.Args[0].(*ssa.Const)
 			if !ok || k.Value == nil || k.Value.Kind() != constant.String {
 				continue
@@ -87,10 +102,67 @@ func sprintfVerbs(fn *ssa.Function) ([]fmtVerb, string, *ssa.Call) {
 				verbs = append(verbs, fmtVerb{format[i : j+1], f})
 				i = j
 			}
-			return verbs, format, call
+			return verbs, format
 		}
 	}
-	return nil, "", nil
+	return nil, ""
+}
+
+// writerPieces: the fields printed into the first result of fn, in order, when that string is
+// built from fmt.Sprintf (constant format), hex.EncodeToString(x) (= %x of x) and "+".
+func writerPieces(fn *ssa.Function) ([]fmtVerb, string) {
+	var ret *ssa.Return
+	for _, b := range fn.Blocks {
+		if r, ok := b.Instrs[len(b.Instrs)-1].(*ssa.Return); ok {
+			if ret != nil {
+				return nil, ""
+			}
+			ret = r
+		}
+	}
+	if ret == nil || len(ret.Results) == 0 {
+		return nil, ""
+	}
+	format := ""
+	var pieces func(v ssa.Value, depth int) ([]fmtVerb, bool)
+	pieces = func(v ssa.Value, depth int) ([]fmtVerb, bool) {
+		if depth > 8 {
+			return nil, false
+		}
+		switch x := v.(type) {
+		case *ssa.Const:
+			if x.Value != nil && x.Value.Kind() == constant.String {
+				format += constant.StringVal(x.Value)
+				return nil, true
+			}
+		case *ssa.BinOp:
+			if x.Op == token.ADD {
+				l, ok1 := pieces(x.X, depth+1)
+				r, ok2 := pieces(x.Y, depth+1)
+				return append(l, r...), ok1 && ok2
+			}
+		case *ssa.Call:
+			sc := x.Call.StaticCallee()
+			if sc == nil {
+				return nil, false
+			}
+			switch sc.String() {
+			case "fmt.Sprintf":
+				vs, f := sprintfVerbsOf(x)
+				format += f
+				return vs, f != ""
+			case "encoding/hex.EncodeToString":
+				format += "%x"
+				return []fmtVerb{{"%x", valueFieldName(x.Call.Args[0])}}, true
+			}
+		}
+		return nil, false
+	}
+	vs, ok := pieces(ret.Results[0], 0)
+	if !ok {
+		return nil, ""
+	}
+	return vs, format
 }
 
 // valueFieldName: the struct field a value was read from (through loads / Field).
@@ -220,9 +292,9 @@ func ruleTFmt(c *Ctx) {
 		c.Undecided("T-fmt", "anchors", token.NoPos, "createBIP276 / DecodeBIP276 not found")
 		return
 	}
-	verbs, format, _ := sprintfVerbs(writer)
+	verbs, format := writerPieces(writer)
 	if len(verbs) == 0 {
-		c.Undecided("T-fmt", "writer/format", writer.Pos(), "no fmt.Sprintf with a constant format found in createBIP276 (writer idiom not recognised)")
+		c.Undecided("T-fmt", "writer/format", writer.Pos(), "the text returned by createBIP276 is not built from fmt.Sprintf with a constant format, hex.EncodeToString and concatenation (writer idiom not recognised)")
 		return
 	}
 	// regex pattern: the package-level regexp.MustCompile constant used by the reader
@@ -301,12 +373,78 @@ func ruleTFmt(c *Ctx) {
 	want := []string{"Prefix", "Version", "Network", "Data"}
 	c.Check(strings.Join(order, ",") == strings.Join(want, ","), "T-fmt", "writer/bip-order", writer.Pos(), "writer emits prefix, version, network, data as BIP276 specifies",
 		fmt.Sprintf("writer emits %v, BIP276 specifies %v", order, want))
-	// (e) encoder range guards
+	// (e) encoder range guards: "ERROR" exactly when version or network is outside 1..255, decided on
+	// a grid of representatives over the function's own conditions (helpers read as part of it)
 	if enc := c.P.Func("bscript", "", "EncodeBIP276"); enc != nil {
-		at := lengthAtomsOnField(enc, "Version")
-		an := lengthAtomsOnField(enc, "Network")
-		c.Check(at["== 0"] && at["> 255"] && an["== 0"] && an["> 255"], "T-fmt", "encoder/range", enc.Pos(), "EncodeBIP276 rejects version/network outside 1..255",
-			fmt.Sprintf("EncodeBIP276 range guards changed: version %v network %v", keysOf(at), keysOf(an)))
+		paths, err := feasiblePaths(enc, 500)
+		if err != nil {
+			c.Undecided("T-fmt", "encoder/range", enc.Pos(), err.Error())
+			return
+		}
+		bad := ""
+		cells := 0
+		bases := condBaseTerms(paths) // the script argument may be spilled to a local: fields are matched by name
+		// representatives: the borders of 1..255 and the neighbours of every constant the function
+		// compares with (negative values are outside the property and not examined)
+		repSet := map[int64]bool{0: true, 1: true, 255: true, 256: true}
+		for _, d := range paths {
+			for _, pc := range d.Conds {
+				cs := map[string]*big.Int{}
+				collectConsts(pc.Cond, cs)
+				for _, k := range cs {
+					for dlt := int64(-1); dlt <= 1; dlt++ {
+						if v := k.Int64() + dlt; k.IsInt64() && v >= 0 && v <= 256 {
+							repSet[v] = true
+						}
+					}
+				}
+			}
+		}
+		var reps []int64
+		for v := range repSet {
+			reps = append(reps, v)
+		}
+		sort.Slice(reps, func(i, j int) bool { return reps[i] < reps[j] })
+		for _, ver := range reps {
+			for _, net := range reps {
+				asg := map[string]*big.Int{}
+				for k := range bases {
+					switch {
+					case strings.HasSuffix(k, ".Version"):
+						asg[k] = big.NewInt(ver)
+					case strings.HasSuffix(k, ".Network"):
+						asg[k] = big.NewInt(net)
+					}
+				}
+				hits, isErr := 0, false
+				for _, d := range paths {
+					holds := true
+					for _, pc := range d.Conds {
+						v, ok := evalTerm(pc.Cond, asg)
+						if !ok {
+							c.Undecided("T-fmt", "encoder/range", enc.Pos(), "EncodeBIP276 decides on something other than version and network: "+atomName(pc.Cond))
+							return
+						}
+						if (v.Sign() != 0) != pc.Truth {
+							holds = false
+						}
+					}
+					if !holds || d.EndKind != "return" {
+						continue
+					}
+					hits++
+					rt := d.Env.Term(d.Ret.Results[0])
+					isErr = rt.K == "const" && rt.C != nil && rt.C.Kind() == constant.String && constant.StringVal(rt.C) == "ERROR"
+				}
+				cells++
+				want := ver < 1 || ver > 255 || net < 1 || net > 255
+				if (hits != 1 || isErr != want) && bad == "" {
+					bad = fmt.Sprintf("version %d, network %d: refused=%v (paths holding: %d), the two-digit fields hold 1..255", ver, net, isErr, hits)
+				}
+			}
+		}
+		c.Covered["T-fmt:encoder_cells"] = cells
+		c.Check(bad == "", "T-fmt", "encoder/range", enc.Pos(), fmt.Sprintf("EncodeBIP276 refuses exactly version/network outside 1..255 (%d cells)", cells), "EncodeBIP276 range guards changed: "+bad)
 	} else {
 		c.Undecided("T-fmt", "encoder/range", token.NoPos, "EncodeBIP276 not found")
 	}
@@ -375,6 +513,14 @@ func readerGroupUse(fn *ssa.Function) map[int]groupUse {
 							continue
 						}
 						gu := groupUse{parser: sc.String()}
+						if len(sc.Blocks) > 0 && sc.Pkg != nil && strings.HasPrefix(sc.Pkg.Pkg.Path(), modPath) && len(sc.Params) >= 1 {
+							// a parsing helper of the module: what it applies to its own first argument
+							if inner := helperParse(sc); inner != nil {
+								inner.field = resultDestField(x)
+								out[int(idx.Int64())] = *inner
+								continue
+							}
+						}
 						switch sc.String() {
 						case "strconv.Atoi":
 							gu.base = 10
@@ -407,6 +553,60 @@ func readerGroupUse(fn *ssa.Function) map[int]groupUse {
 		}
 	}
 	return out
+}
+
+// helperParse: fn(digits string, ...) hands its first parameter to exactly one strconv parser and
+// returns that parser's value (possibly converted) as its first result.
+func helperParse(fn *ssa.Function) *groupUse {
+	var found *groupUse
+	for _, b := range fn.Blocks {
+		for _, ins := range b.Instrs {
+			call, ok := ins.(*ssa.Call)
+			if !ok || call.Call.StaticCallee() == nil || len(call.Call.Args) == 0 || call.Call.Args[0] != ssa.Value(fn.Params[0]) {
+				continue
+			}
+			gu := groupUse{parser: call.Call.StaticCallee().String()}
+			switch gu.parser {
+			case "strconv.Atoi":
+				gu.base = 10
+			case "encoding/hex.DecodeString":
+				gu.base = 16
+			case "strconv.ParseInt", "strconv.ParseUint":
+				gu.bits = -1
+				if bk, ok := call.Call.Args[2].(*ssa.Const); ok {
+					if bv, ok := constValInt(bk.Value); ok {
+						gu.bits = int(bv.Int64())
+					}
+				}
+				if bk, ok := call.Call.Args[1].(*ssa.Const); ok {
+					if bv, ok := constValInt(bk.Value); ok {
+						gu.base = int(bv.Int64())
+					}
+				}
+			default:
+				return nil
+			}
+			if found != nil {
+				return nil
+			}
+			// every non-error return gives back the parsed value
+			env := newTermEnv()
+			for _, rb := range fn.Blocks {
+				if ret, ok := rb.Instrs[len(rb.Instrs)-1].(*ssa.Return); ok && len(ret.Results) >= 1 {
+					t := atomName(env.Term(ret.Results[0]))
+					if k, isK := ret.Results[0].(*ssa.Const); isK && k.Value != nil {
+						continue // the zero value on the error return
+					}
+					if !strings.Contains(t, gu.parser) {
+						return nil
+					}
+				}
+			}
+			g := gu
+			found = &g
+		}
+	}
+	return found
 }
 
 // resultDestField: the struct field into which result #0 of the call (possibly converted) is stored.
@@ -483,75 +683,87 @@ func checksumGuard(c *Ctx, reader *ssa.Function) {
 }
 
 // S-disp: ValidateAddress dispatches on "bitcoin-script:" and returns true iff DecodeBIP276 succeeds.
+// Decided on the function's paths (helpers it was split into are read as part of it).
 func ruleSDisp(c *Ctx) {
 	fn := c.P.Func("bscript", "", "ValidateAddress")
 	if fn == nil {
 		c.Undecided("S-disp", "ValidateAddress", token.NoPos, "not found")
 		return
 	}
-	pe := pEngine(c)
-	pf := pe.pf(fn)
-	var hasPrefix, decode *ssa.Call
-	for _, b := range fn.Blocks {
-		for _, ins := range b.Instrs {
-			if call, ok := ins.(*ssa.Call); ok {
-				if sc := call.Call.StaticCallee(); sc != nil {
-					switch sc.String() {
-					case "strings.HasPrefix":
-						hasPrefix = call
-					}
-					if sc.Name() == "DecodeBIP276" {
-						decode = call
-					}
+	paths, err := feasiblePaths(fn, 500)
+	if err != nil {
+		c.Undecided("S-disp", "ValidateAddress", fn.Pos(), err.Error())
+		return
+	}
+	shapes := map[string]bool{}
+	prefixes := map[string]bool{}
+	for _, d := range paths {
+		if d.EndKind != "return" || len(d.Ret.Results) != 2 {
+			shapes["does not return"] = true
+			continue
+		}
+		prefix := "untested"
+		for _, pc := range d.Conds {
+			call, ok := pc.Cond.V.(*ssa.Call)
+			if !ok || call.Call.StaticCallee() == nil || call.Call.StaticCallee().String() != "strings.HasPrefix" {
+				continue
+			}
+			if atomName(d.Env.Term(call.Call.Args[0])) != "p0" {
+				prefix = "tested on another string"
+				continue
+			}
+			pt := d.Env.Term(call.Call.Args[1])
+			if pt.K == "const" && pt.C != nil && pt.C.Kind() == constant.String {
+				prefixes[constant.StringVal(pt.C)] = true
+			} else {
+				prefixes[atomName(pt)] = true
+			}
+			prefix = fmt.Sprintf("prefix=%v", pc.Truth)
+		}
+		var calls []string
+		var decode *ssa.Call
+		for _, ins := range pathInstrs(d) {
+			if call, ok := ins.(*ssa.Call); ok && call.Call.StaticCallee() != nil {
+				switch call.Call.StaticCallee().Name() {
+				case "DecodeBIP276":
+					calls = append(calls, "DecodeBIP276("+atomName(d.Env.Term(call.Call.Args[0]))+")")
+					decode = call
+				case "validA58":
+					calls = append(calls, "validA58("+atomName(d.Env.Term(call.Call.Args[0]))+")")
 				}
 			}
 		}
-	}
-	if hasPrefix == nil || decode == nil {
-		c.Fail("S-disp", "ValidateAddress/dispatch", fn.Pos(), "ValidateAddress no longer dispatches bitcoin-script strings to DecodeBIP276")
-		return
-	}
-	pre := ""
-	if k, ok := hasPrefix.Call.Args[1].(*ssa.Const); ok && k.Value != nil {
-		pre = constant.StringVal(k.Value)
-	}
-	c.Check(pre == "bitcoin-script:", "S-disp", "ValidateAddress/prefix", hasPrefix.Pos(), "dispatch prefix is PrefixScript + \":\"", "dispatch prefix is "+pre)
-	// the decode call is reached only when HasPrefix is true
-	fs := pf.factsAt(decode.Block())
-	_ = fs
-	domOK := false
-	for x := decode.Block(); x != nil; x = x.Idom() {
-		if len(x.Preds) == 1 {
-			pr := x.Preds[0]
-			if iff, ok := pr.Instrs[len(pr.Instrs)-1].(*ssa.If); ok && iff.Cond == ssa.Value(hasPrefix) && pr.Succs[0] == x {
-				domOK = true
+		verdict := atomName(d.Env.Term(d.Ret.Results[0]))
+		errDesc := returnDesc(d)
+		decErr := ""
+		if decode != nil {
+			// which way the test of DecodeBIP276's error went on this path
+			for _, pc := range d.Conds {
+				s := atomName(pc.Cond)
+				if strings.Contains(s, "DecodeBIP276(") && strings.HasSuffix(s, "#1 != nil)") {
+					decErr = fmt.Sprintf(" decode-error=%v", pc.Truth)
+				} else if strings.Contains(s, "DecodeBIP276(") && strings.HasSuffix(s, "#1 == nil)") {
+					decErr = fmt.Sprintf(" decode-error=%v", !pc.Truth)
+				}
 			}
 		}
+		if strings.Contains(verdict, "validA58(") {
+			verdict = "validA58's"
+		}
+		shapes[prefix+"; "+strings.Join(calls, "; ")+decErr+"; verdict "+verdict+"; "+errDesc] = true
 	}
-	c.Check(domOK, "S-disp", "ValidateAddress/guard", decode.Pos(), "DecodeBIP276 is called exactly on the HasPrefix branch", "DecodeBIP276 is not guarded by the prefix test")
-	// returns in the region dominated by the decode block: true iff err == nil
-	for _, b := range fn.Blocks {
-		ret, ok := b.Instrs[len(b.Instrs)-1].(*ssa.Return)
-		if !ok || !decode.Block().Dominates(b) {
-			continue
+	want := setOf(
+		"prefix=true; DecodeBIP276(p0) decode-error=false; verdict true; return nil",
+		"prefix=true; DecodeBIP276(p0) decode-error=true; verdict false; return err",
+		"prefix=false; validA58([]byte(p0)); verdict validA58's; return err",
+	)
+	same := len(shapes) == len(want)
+	for k := range shapes {
+		if !want[k] {
+			same = false
 		}
-		tv, isC := ret.Results[0].(*ssa.Const)
-		if !isC {
-			c.Fail("S-disp", "ValidateAddress/verdict", ret.Pos(), "verdict after DecodeBIP276 is not a constant")
-			continue
-		}
-		verdict := constant.BoolVal(tv.Value)
-		errNil := false
-		errNonNil := false
-		for _, f := range pf.factsAt(b).facts {
-			if f.isnil != "" && strings.Contains(f.isnil, "DecodeBIP276") {
-				errNil = true
-			}
-			if f.nonil != "" && strings.Contains(f.nonil, "DecodeBIP276") {
-				errNonNil = true
-			}
-		}
-		c.Check((verdict && errNil) || (!verdict && errNonNil), "S-disp", fmt.Sprintf("ValidateAddress/verdict-%v", verdict), ret.Pos(),
-			"returns true exactly when DecodeBIP276 returned no error", "the verdict for bitcoin-script strings does not follow DecodeBIP276's error")
 	}
+	c.Check(same, "S-disp", "ValidateAddress/dispatch", fn.Pos(), "bitcoin-script strings go to DecodeBIP276 on the string as given and are valid exactly when it reports no error; everything else goes to validA58 as given",
+		fmt.Sprintf("ValidateAddress no longer dispatches bitcoin-script strings to DecodeBIP276 / the rest to validA58 with the decoder's verdict: {%s}, specified {%s}", strings.Join(keysSorted(shapes), " | "), strings.Join(keysSorted(want), " | ")))
+	c.Check(len(prefixes) == 1 && prefixes["bitcoin-script:"], "S-disp", "ValidateAddress/prefix", fn.Pos(), "dispatch prefix is PrefixScript + \":\"", fmt.Sprintf("dispatch prefix is %v", keysOf(prefixes)))
 }
